@@ -139,7 +139,8 @@ func (t *openTelemetryTransport) Submit(op *runtime.ClientOperation) (interface{
 			span.SetAttributes(semconv.HTTPStatusCode(statusCode))
 			// NOTE: the conversion from HTTP status code to trace code is no longer available with
 			// semconv v1.21
-			span.SetStatus(httpconv.ServerStatus(statusCode))
+			// This is a client span: any status >= 400 is an error (for a server span, 4xx would be left unset).
+			span.SetStatus(httpconv.ClientStatus(statusCode))
 		}
 
 		return reader.ReadResponse(response, consumer)
